@@ -1114,6 +1114,12 @@ def alignment_rules(run, R="ALIGN"):
                         hops += 1
                         h_ = prog.fn(o_[1].get("resolved") or "")
                         if h_ is not None and o_[1].get("resolved_local") and not (o_[1].get("resolved") or "").endswith("BigInt::checked_add") and "util::bigint" not in (o_[1].get("resolved") or ""):
+                            # a helper that keeps what it computed in the iterator (a store through its `self`) answers for the bank
+                            # that was current when it was first asked, not for the current one
+                            memo = [st9 for b9, s9, st9 in h_.stmts() if st9["k"] == "assign" and st9["place"]["l"] == 1 and any(isinstance(x, dict) and "f" in x for x in st9["place"]["p"])]
+                            if memo:
+                                run.violation(R, "%s|absolute|remembered|%s" % (R, root), h_.loc(memo[0]["span"]),
+                                              "%s computes part of the absolute address once and keeps it in the iterator (`%s`): after `#bank` switches to another bank the alignment is still computed from the first bank's start address" % (h_.id.rsplit("::", 1)[-1], memo[0]["place"]["p"][-1].get("name")))
                             for b9, s9, st9 in h_.stmts():
                                 if st9["k"] == "assign":
                                     from mir import rv_places as _rvp
